@@ -870,6 +870,19 @@ class Translator:
                 self.bad(node, "an ignored argument that is not a plain name")
             return V(self.hoist(f"PyRt.callClass {c.term} (fun py_c => {cc['lean']} py_c " + " ".join(args) + ")", cc["ret"], node), cc["ret"])
         ctors = self.spec.get("ctors", {})
+        if fname in ctors and node.args and "positional" in ctors[fname] and not kw:
+            # `Class(a, b, c)`: the spec names the field each position fills (None: a literal argument outside the model)
+            c = ctors[fname]
+            if len(node.args) != len(c["positional"]):
+                self.bad(node, f"`{fname}` called with {len(node.args)} arguments, the spec knows {len(c['positional'])}")
+            out = list(c.get("consts", []))
+            for a, (fld, t) in zip(node.args, c["positional"]):
+                if fld is None:
+                    if not isinstance(a, ast.Constant):
+                        self.bad(a, "an ignored constructor argument that is not a literal")
+                    continue
+                out.append(f"{fld} := {self.coerce(self.expr(a, env), t, a)}")
+            return V("({ " + ", ".join(out) + " } : " + c["type"] + ")", c["type"])
         if fname in ctors and not node.args:
             c = ctors[fname]
             fields = dict(c["fields"])
@@ -1243,6 +1256,10 @@ class Translator:
                 env2, line = self.bind(c0.func.value, new, env, st)
                 return line + "\n" + self.block(rest, env2, frame)
             return self.with_hoists(hs, env, frame, inner)
+        if (isinstance(c0, ast.Call) and isinstance(c0.func, ast.Attribute) and c0.func.attr == "clear" and not c0.args and not c0.keywords
+                and self.key(c0.func.value) in self.places and self.places[self.key(c0.func.value)][2].startswith("List ")):
+            env2, line = self.bind(c0.func.value, V("[]", "EmptyList"), env, st)
+            return line + "\n" + self.block(rest, env2, frame)
         ap = self.append_call(st)
         if ap is not None:
             pk, arg = ap
@@ -1359,6 +1376,12 @@ class Translator:
                   and s.value.func.attr in ("extend", "append", "update") and isinstance(s.value.func.value, ast.Name)):
                 if s.value.func.value.id not in acc:
                     acc.append(s.value.func.value.id)
+            elif (isinstance(s, ast.Expr) and isinstance(s.value, ast.Call) and isinstance(s.value.func, ast.Attribute)
+                  and s.value.func.attr == "clear" and self.key(s.value.func.value) in self.places):
+                pk = self.key(s.value.func.value)
+                key = "__st" if self.places[pk][3] == "s" else ("place", pk)
+                if key not in acc:
+                    acc.append(key)
             elif self.append_call(s) is not None:
                 pk = self.append_call(s)[0]
                 key = "__st" if self.places[pk][3] == "s" else ("place", pk)
@@ -1538,6 +1561,28 @@ class Translator:
         keeps = (self.spec.get("raise_state") is not False
                  and any(m in ("__st", "__acts") or isinstance(m, tuple) for m in mod))
         envl = dict(env)
+        if fuel is not None and isinstance(st.test, ast.Constant) and st.test.value is True:
+            # `while True:` is only left through `break` (return, an exception): a name the body only STORES, that is new in
+            # the loop and bound at every `break`, is bound after the loop. It joins the loop state with a default value
+            # no path can read (the body never loads it; after the loop it comes from the round that broke out).
+            loads = {x.id for x in ast.walk(ast.Module(body=st.body, type_ignores=[])) if isinstance(x, ast.Name) and isinstance(x.ctx, ast.Load)}
+            cands = [n for n in self.assigned(st.body, []) if isinstance(n, str) and not n.startswith("__") and n not in env and n not in loads]
+            if cands:
+                saved0 = (self.tmp, self.raises, dict(self.seen_types))
+                envb = dict(envl)
+                for m in mod:
+                    envb[m] = V(self.state_name(m), envl[m].typ, envl[m].nn)
+                lf0 = LoopFrame(self, mod, frame, keeps)
+                self.block(st.body, envb, lf0)
+                self.tmp, self.raises, self.seen_types = saved0
+                brks = [lf0.ends[j] for j in lf0.brk_idx]
+                for n in cands:
+                    if brks and all(n in e for e in brks):
+                        t = brks[0][n].typ
+                        for e in brks[1:]:
+                            t = self.join_type(t, e[n].typ, st)
+                        envl[n] = V(f"(default : {ty(t)})", t)
+                        mod.append(n)
         for _ in range(4):
             # types / signs of the state at the head of the body must be what the body leaves (loop invariant)
             envb = dict(envl)
@@ -1694,6 +1739,7 @@ class LoopFrame(Frame):
     be left by `return` or is a `while`: there `return` ends in `.ok (.ret <the definition's result>)`)"""
     def __init__(self, tr, mod, parent=None, keeps=False):
         self.tr, self.mod, self.ends, self.parent, self.keeps = tr, mod, [], parent, keeps
+        self.brk_idx = []
 
     def fall(self, env):
         self.ends.append(dict(env))
@@ -1714,6 +1760,7 @@ class LoopFrame(Frame):
         if self.parent is None:
             self.tr.bad(node, "break inside a loop body")
         self.ends.append(dict(env))
+        self.brk_idx.append(len(self.ends) - 1)
         return f"\0K{id(self)}_{len(self.ends) - 1}\0"
 
     def result_types(self):
